@@ -59,6 +59,10 @@ func renderLean(a *Analysis) (string, *Encoded) {
 			written[x.Loc] = true
 		}
 	}
+	for _, sw := range a.SentThenWritten {
+		written[sw.Loc] = true
+		allLocs[sw.Loc] = true
+	}
 	enc.LocNames = sortedKeys(written)
 	enc.AllLocs = len(allLocs)
 	enc.AllAcc = len(a.Accesses)
@@ -196,6 +200,26 @@ func renderLean(a *Analysis) (string, *Encoded) {
 		}
 	}
 	sb.WriteString("]\n\n")
-	sb.WriteString("def table : Table := ⟨roots, groups⟩\n\nend Shk.Gen\n")
+	sb.WriteString("/-- locations written, in some function, after a pointer to the object was sent on a channel there -/\ndef sentThenWritten : List Nat := [")
+	stw := map[int]bool{}
+	var stwIDs []int
+	for _, sw := range a.SentThenWritten {
+		if !stw[locID[sw.Loc]] {
+			stw[locID[sw.Loc]] = true
+			stwIDs = append(stwIDs, locID[sw.Loc])
+		}
+	}
+	sort.Ints(stwIDs)
+	for i, id := range stwIDs {
+		if i > 0 {
+			sb.WriteString(", ")
+		}
+		sb.WriteString(strconv.Itoa(id))
+	}
+	sb.WriteString("]\n")
+	for _, sw := range a.SentThenWritten {
+		fmt.Fprintf(&sb, "-- %s: %s %s (%s) after %s at %s\n", sw.Loc, sw.Fn, sw.Pos, sw.How, sw.SentHow, sw.SentPos)
+	}
+	sb.WriteString("\ndef table : Table := ⟨roots, groups, sentThenWritten⟩\n\nend Shk.Gen\n")
 	return sb.String(), enc
 }
